@@ -3,6 +3,7 @@ import EtVerif.Props.TrC09
 import EtVerif.Props.TrC01
 import EtVerif.Props.TrC02
 import EtVerif.Props.TrC04
+import EtVerif.Props.TrSrc
 #print axioms EtVerif.C02.step_den
 #print axioms EtVerif.C02.step_wf
 #print axioms EtVerif.C02.step_mass
@@ -37,3 +38,10 @@ import EtVerif.Props.TrC04
 #print axioms EtVerif.TrC04.canonicalize_refines
 #print axioms EtVerif.TrC04.canonicalizeTrustVector_refines
 #print axioms EtVerif.TrC04.canonicalizeLocalTrust_refines
+-- basic.Compute translated TOGETHER WITH the convergence checker translated from the source (no hand-written checker
+-- in between) refines the model, under the oracle hypotheses about sqrt on sums of squares
+#print axioms EtVerif.TrSrc.compute_src_refines_ok_partial
+#print axioms EtVerif.TrSrc.compute_src_refines_err_partial
+#print axioms EtVerif.TrSrc.compute_src_refuses_validation
+#print axioms EtVerif.TrSrc.oracleOK_of_forall
+#print axioms EtVerif.TrSrc.go_compute_src_distribution
